@@ -159,7 +159,8 @@ def run(run):
     stats = collections.Counter()
     mism = []
     jmism = []
-    proj = E.small_project(rng, h, nfiles=1, extra={"src/Nasty.java": NASTY})
+    big = "class Big { String big = \"%s\"; int small = 1; }\n" % ("long value 0123456789 " * 70)
+    proj = E.small_project(rng, h, nfiles=1, extra={"src/Nasty.java": NASTY, "src/Big.java": big})
     outdir = C.scratch("c15out")
     try:
         kinds = [k for k in QG.KINDS_DEFAULT if proj.by_kind.get(k)] + ["block_comment"]
@@ -171,6 +172,13 @@ def run(run):
                 q = QG.random_query(rng, kinds=["variable_declaration"], values=proj.values, depth=0, n_entities=1, n_preds=0, where=False)
             if qi % 7 == 3:
                 text = 'FROM block_comment AS c SELECT c, "lit <&> \\"q\\" \\\\ ü"'
+                q = None
+            elif qi % 9 == 4:
+                # cells of more than a kilobyte: a long literal, a long attribute value, the description of an entity with one
+                text = rng.choice(['FROM variable_declaration AS v WHERE v.getScope() == "field" SELECT v.getName(), "%s", v.getVariableValue()' % ("é long literal " * 110),
+                                   'FROM variable_declaration AS v WHERE v.getScope() == "field" SELECT v, v.getVariableValue()',
+                                   'FROM class_declaration AS c SELECT "%s", c.getName()' % ("0123456789" * 130)])
+                stats["long_cell_queries"] += 1
                 q = None
             elif qi % 3 == 1:
                 # two entities whose aliases are textually related (prefix / suffix / substring of one another),
@@ -287,6 +295,23 @@ def run(run):
                                 run.violation("C15:description-of-wrong-entity", "row %d bare alias %s describes another entity in %r" % (i, stext, text),
                                               dict(query=text, value=str(val)[:300], entity=members[k]))
                             stats["cells_checked"] += 1
+            # ---- every JSON mode reports the same rows for the same combinations
+            # (a bare alias prints the entity with %+v: Javadoc tags appear as addresses, which differ from process to process)
+            unptr = lambda t: re.sub(r"0x[0-9a-f]{6,}", "0xPTR", t)
+            ref_rows = collections.Counter(unptr(json.dumps([rs[i * ne:(i + 1) * ne], rows[i]], sort_keys=True)) for i in range(ntuples)) if ne else collections.Counter()
+            for name in ("json-file", "json-verbose"):
+                dj = docs.get(name)
+                if dj is None or not ne:
+                    continue
+                rs2, rows2 = dj.get("result_set", []), dj.get("output", [])
+                if len(rs2) != len(rows2) * ne:
+                    continue
+                got_rows = collections.Counter(unptr(json.dumps([rs2[i * ne:(i + 1) * ne], rows2[i]], sort_keys=True)) for i in range(len(rows2)))
+                if got_rows != ref_rows:
+                    ex = list((ref_rows - got_rows).elements())[:1] + list((got_rows - ref_rows).elements())[:1]
+                    run.violation("C15:json-modes-differ", "mode %s reports other rows than plain JSON mode for %r (cells of up to %d bytes)" %
+                                  (name, text[:200], max([len(str(c)) for row in rows for c in row] or [0])),
+                                  dict(query=text, mode=name, example=[e[:600] for e in ex]))
             # ---- all modes describe the same locations
             locs = {}
             for name, doc in docs.items():
